@@ -28,7 +28,7 @@ def evidence_extra(rec, tier):
 
 @st.composite
 def _case(draw):
-    prof = S.profile(dep_only_file=0.2, max_methods=2, max_services=1, p_http=0.2, p_sig=0.1, p_routing=0.0, p_paged=0.05, p_lro=0.05,
+    prof = S.profile(dep_only_file=0.2, p_enum_alias=0.25, max_methods=2, max_services=1, p_http=0.2, p_sig=0.1, p_routing=0.0, p_paged=0.05, p_lro=0.05,
                      p_comment=0.05, max_messages=7, max_fields=8, max_depth=4, p_map=0.5, p_repeated=0.2,
                      p_optional=0.25, p_oneof=0.6, p_nested=0.55, p_recursive=0.2, p_dep_type=0.2, p_reserved_field=0.1,
                      p_sparse_numbers=0.3, p_resource=0.1)
